@@ -843,6 +843,12 @@ class Referable(HasExtension, metaclass=abc.ABCMeta):
             # this object sits in a namespace: take the new id_short through the setter, which re-keys the object in
             # its parent (or refuses a collision / an unset id_short) before anything has been changed
             self.id_short = other.id_short
+        # All NamespaceSets of an object share one namespace (e.g. the three variable sets of an Operation): the objects
+        # that go are removed from all sets before objects come into any of them, so that an object which moves from
+        # one set to another (same id_short) does not collide with its predecessor.
+        for name, var in vars(other).items():
+            if isinstance(var, NamespaceSet) and name not in ("parent", "namespace_element_sets"):
+                vars(self)[name]._remove_objects_not_in(var)
         for name, var in vars(other).items():
             # do not update the parent, namespace_element_sets or source (depending on update_source parameter)
             if name in ("parent", "namespace_element_sets") or name == "source" and not update_source:
@@ -2166,6 +2172,27 @@ class NamespaceSet(MutableSet[_NSO], Generic[_NSO]):
             if name != "parent":
                 vars(obj)[name] = var
 
+    def _remove_objects_not_in(self, other: "NamespaceSet") -> None:
+        """
+        Remove the objects that have no counterpart in ``other``: no object with the same identifying attribute, or one
+        of another class (it can't be updated in place, so the object is replaced).
+
+        First step of :meth:`update_nss_from`; :meth:`Referable.update_from` does this step for all NamespaceSets of an
+        object before it updates any of them.
+        """
+        objects_to_remove: List[_NSO] = []  # objects to remove from self
+        for attr_name, (backend, case_sensitive) in self._backend.items():
+            if attr_name not in other._backend:
+                continue
+            backend_other = other._backend[attr_name][0]
+            for item in backend.values():
+                counterpart = backend_other.get(self._get_attribute(item, attr_name, case_sensitive))
+                if (counterpart is None or type(counterpart) is not type(item)) \
+                        and not any(item is o for o in objects_to_remove):
+                    objects_to_remove.append(item)
+        for object_to_remove in objects_to_remove:
+            self.remove(object_to_remove)
+
     # Todo: Implement function including tests
     def update_nss_from(self, other: "NamespaceSet"):
         """
@@ -2175,17 +2202,14 @@ class NamespaceSet(MutableSet[_NSO], Generic[_NSO]):
 
         :param other: The NamespaceSet to update from
         """
+        # remove first: the objects that go must not take part in the constraint checks of those that come
+        self._remove_objects_not_in(other)
         objects_to_add: List[_NSO] = []  # objects from the other nss to add to self
-        objects_to_remove: List[_NSO] = []  # objects to remove from self
         for other_object in other:
             try:
                 if isinstance(other_object, Referable):
                     backend, case_sensitive = self._backend["id_short"]
                     referable = backend[other_object.id_short if case_sensitive else other_object.id_short.upper()]
-                    if type(referable) is not type(other_object):
-                        # same id_short, but another class: it can't be updated in place, so replace the object
-                        objects_to_remove.append(referable)
-                        raise KeyError(other_object.id_short)
                     referable.update_from(other_object, update_source=True)  # type: ignore
                 elif isinstance(other_object, Qualifier):
                     backend, case_sensitive = self._backend["type"]
@@ -2200,16 +2224,6 @@ class NamespaceSet(MutableSet[_NSO], Generic[_NSO]):
             except KeyError:
                 # other object is not in NamespaceSet
                 objects_to_add.append(other_object)
-        for attr_name, (backend, case_sensitive) in self._backend.items():
-            for attr_name_other, (backend_other, case_sensitive_other) in other._backend.items():
-                if attr_name is attr_name_other:
-                    for item in backend.values():
-                        if not backend_other.get(self._get_attribute(item, attr_name, case_sensitive)):
-                            # referable does not exist in the other NamespaceSet
-                            objects_to_remove.append(item)
-        # remove first: the objects that go must not take part in the constraint checks of those that come
-        for object_to_remove in objects_to_remove:
-            self.remove(object_to_remove)  # type: ignore
         for object_to_add in objects_to_add:
             other.remove(object_to_add)
             self.add(object_to_add)  # type: ignore
